@@ -47,8 +47,7 @@ CHECKS = {
              "followed by dtw_expand_wps / dtw_expand_wps_slice are recorded and TLC judges every cell against the "
              "cell-wise optimum (with the freedom above max_dist, the -1 marks and unread border cells), the shape and "
              "the returned distance.",
-        note="Trusted: TLC, exact-domain encoding, ctypes layout. Known finding: dtw_expand_wps_slice on proper sub-ranges "
-             "(see known_findings.jsonl)."),
+        note="Trusted: TLC, exact-domain encoding, ctypes layout.."),
     "C05": dict(
         level="model_checking", design="DESIGN.md 4/C05",
         technique="TLA+ path predicate (Admissible, PathCost = Opt) judges every recorded warping path",
@@ -117,7 +116,7 @@ CHECKS = {
              "masks across the byte boundary and the affinity routines, with caller buffers of exactly the documented "
              "sizes. TLC cannot observe memory: the sanitizer is the monitor, hence level exploration.",
         note="Trusted: gcc 12 ASan/UBSan runtime; buffer sizes taken from the documented functions "
-             "(dtw_settings_wps_length, dtw_distances_length). Known finding: dtw_expand_wps_slice on sub-ranges."),
+             "(dtw_settings_wps_length, dtw_distances_length)."),
     "C12": dict(
         level="model_checking", design="DESIGN.md 4/C12",
         technique="TLA+ DBA spec: existential choice of optimal paths; theorems model-checked over all choices; recorded averages trace-validated by TLC",
